@@ -319,6 +319,12 @@ def f9(ctx, rid):
         ctx.ok(rid, 'no-o-append|scan', '', '%d OpenOptions configuration calls in src/io, none sets O_APPEND' % n, queries=n)
 
 
+def f10(ctx, rid):
+    """after a failed index dump and a restart the stale index file is rejected (C03.I2 instances: blob size by equality)"""
+    import props.c03 as c03
+    c03.i2(ctx, rid)
+
+
 RULES = [
     Rule('C11.X3', 'no err-exit is reachable between a move-out of shared state and its hand-back', x3, 4),
     Rule('C11.L1', 'an error while handling a worker message never ends the maintenance loop (C13.L1 instances)', l1, 4),
@@ -328,5 +334,6 @@ RULES = [
     Rule('C11.F7', 'boolean request-pending / in-progress flags are released on every path including error exits (C12.S8 instances)', f7, 1),
     Rule('C11.F8', 'once the tombstone is in the active blob the delete cannot be reported as failed', f8, 1),
     Rule('C11.F9', 'no file of the io layer is opened with O_APPEND (positional writes at reserved offsets must be honoured)', f9, 1),
+    Rule('C11.F10', 'a stale index left behind by a failed dump is rejected at the next start (C03.I2 instances)', f10, 2),
     Rule('C11.F6', 'an index file cut short by a failed dump is never trusted: written flag set in a second phase, extent checked at open (C03.I8/I5 instances)', f6, 2),
 ]
